@@ -70,6 +70,7 @@ var kinds = []kind{
 	{name: "bad-then-good", two: true},
 	{name: "good-then-bad", two: true},
 	{name: "exact-duplicate", two: true},
+	{name: "garbage-twice", two: true}, // a purged faulty sender sends garbage again (needs the fallback more than once per root)
 	{name: "permuted-roots", multiOnly: true},
 }
 
@@ -533,6 +534,9 @@ func (h *histo) buildMessages() []pmsg {
 		case "good-then-bad":
 			list = append(list, pmsg{from: id, m: good, label: "good:replaced-later", bad: true, first: true, pair: len(list) + 1})
 			list = append(list, pmsg{from: id, m: garbage(), label: "bad:replacement", bad: true, pair: len(list) - 1})
+		case "garbage-twice":
+			list = append(list, pmsg{from: id, m: garbage(), label: "bad:garbage-first", bad: true, first: true, pair: len(list) + 1})
+			list = append(list, pmsg{from: id, m: garbage(), label: "bad:garbage-again", bad: true, pair: len(list) - 1})
 		case "exact-duplicate":
 			list = append(list, pmsg{from: id, m: good, label: "good:first-copy", bad: true, first: true, pair: len(list) + 1})
 			list = append(list, pmsg{from: id, m: good, label: "good:duplicate", bad: true, pair: len(list) - 1})
